@@ -416,11 +416,14 @@ class GRUnit(Operation):
                 self.X, dLdX.astype(self.X.dtype, copy=False)
             )  # self.X.backward(dLdX, **kwargs)
 
+        # raises InvalidBackprop if an input's graph was cleared; the cached gates are
+        # only dropped once that check has passed, so that a repeated attempt fails
+        # the same way instead of on a missing attribute
+        super().backward(grad)
+
         del self._z
         del self._r
         del self._h
-
-        super().backward(grad)
 
 
 def gru(
